@@ -9,6 +9,7 @@ import FP.Model.Printer
 import FP.Lemmas.Syntax
 import FP.Lemmas.SyntaxFull
 import FP.Lemmas.Lexer
+import FP.Model.Eval
 namespace FP.Props.C11
 open FP FP.Model.Syntax FP.Gen.Grammar FP.Lemmas.Syntax FP.Lemmas.Lexer
 
@@ -221,5 +222,50 @@ example : SrcOK [.tok (.kw "(") ['('], .tok (.ident "a") "a".toList, .tok (.kw "
     correspondence stream) -/
 theorem comment_after_slash_fuses : lex "4 //* c */ 2" = [.num "4"] ∧ lex "4 / /* c */ 2" = [.num "4", .kw "/", .num "2"] := by
   decide +kernel
+
+/-! ### evaluation of the renderings (the assembled evaluator, FP.Model.Eval) -/
+
+open FP.Model.Eval in
+/-- EVALUATE IDENTICALLY: for every expression tree, the minimally and the fully parenthesised
+    rendering go through Compile and Evaluate to the same outcome — same result collection, same
+    evaluation error, or both rejected by Compile — for every function table, every environment
+    and every input collection -/
+theorem renderings_evaluate_identically (t : Ex) (h : WfE t) (tbl : List FP.Gen.FuncTable.Entry)
+    (env : Env) (input : List FP.Model.Val) :
+    runToks tbl (printAt 0 t) env input = runToks tbl (printFull t) env input := by
+  unfold runToks
+  rw [renderings_agree t h]
+
+open FP.Model.Eval in
+/-- … and the outcome is that of the tree itself: parentheses carry no meaning of their own -/
+theorem rendering_evaluates_the_tree (t : Ex) (h : WfE t) (tbl : List FP.Gen.FuncTable.Entry)
+    (env : Env) (input : List FP.Model.Val) :
+    runToks tbl (printAt 0 t) env input = finish env input (compile tbl t false) := by
+  unfold runToks
+  rw [minimal_rendering_roundtrip_all t h]
+
+open FP.Model.Eval in
+/-- WHITE SPACE AND COMMENTS NEVER CHANGE THE OUTCOME, from characters to result: any decoration of
+    the minimal rendering and any decoration of the full rendering of one tree — white space,
+    newlines, block and line comments in the gaps — compile and evaluate to the same outcome -/
+theorem decorated_renderings_evaluate_identically (t : Ex) (h : WfE t) (ps qs : List Piece)
+    (hp : SrcOK ps) (hq : SrcOK qs) (hps : srcToks ps = printAt 0 t) (hqs : srcToks qs = printFull t)
+    (tbl : List FP.Gen.FuncTable.Entry) (env : Env) (input : List FP.Model.Val) :
+    run tbl (String.ofList (srcText ps)) env input = run tbl (String.ofList (srcText qs)) env input := by
+  unfold run
+  rw [decorated_rendering_roundtrip t h ps hp hps, decorated_full_rendering_roundtrip t h qs hq hqs]
+
+open FP.Model.Eval in
+/-- two decorations of one token sequence evaluate alike whether or not the sequence parses -/
+theorem gaps_never_change_the_evaluation (ps qs : List Piece) (hp : SrcOK ps) (hq : SrcOK qs)
+    (h : srcToks ps = srcToks qs) (tbl : List FP.Gen.FuncTable.Entry) (env : Env) (input : List FP.Model.Val) :
+    run tbl (String.ofList (srcText ps)) env input = run tbl (String.ofList (srcText qs)) env input := by
+  unfold run
+  rw [gaps_never_change_the_outcome ps qs hp hq h]
+
+open FP.Model.Eval in
+/-- non-vacuity and a test of the assembled pipeline on a concrete program (a test, not the claim) -/
+example : run FP.Gen.FuncTable.baseTable "%a.where($this > 1).count() + 2 * 3"
+    [("a", [.int 1, .int 2, .int 3])] [] = .result [.int 8] := by decide +kernel
 
 end FP.Props.C11
